@@ -292,3 +292,29 @@ def compare_with_model(ctx: Ctx, stream: str, cases, impl_outs, lines, driver: D
     ctx.traces += n
     ctx.streams[stream] += n
     return n
+
+
+def shrink_list(items, still_fails, budget=250):
+    """greedy delta-debugging of an operation sequence: drop chunks, then single operations, while the failure persists"""
+    cur = list(items)
+    n = max(len(cur) // 2, 1)
+    while n >= 1 and budget > 0:
+        i = 0
+        changed = False
+        while i < len(cur) and budget > 0:
+            cand = cur[:i] + cur[i + n:]
+            budget -= 1
+            ok = False
+            try:
+                ok = bool(cand) and still_fails(cand)
+            except Exception:  # noqa: BLE001
+                ok = False
+            if ok:
+                cur = cand
+                changed = True
+            else:
+                i += n
+        if n == 1 and not changed:
+            break
+        n = n // 2 if n > 1 else (1 if changed else 0)
+    return cur
